@@ -31,6 +31,16 @@
     other and then NG goroutines x 2-3 executions at the same time, each with its own id; every output must be what
     the specification predicts for ITS id; the family is replayed a second time under the race detector, and the
     recorded menu contains two such sources.
+    NUMBER FORMATS: instructions oprint / conv convert the non-integer number a + 1/4 through OFMT / CONVFMT, which are
+    private state of the interpreter (interp[i].fmt; the real executions get them as Config.Vars, a different non-default
+    pair each); a conversion takes two steps (format determined, applied); under SharedShellArgs (the determined format
+    is ONE process-level location) an execution prints with another's format (refuted).  Gen_SharedProgram family
+    "formats": 4 executions one after the other, then 4 goroutines x 25 executions at the same time; replayed also under
+    the race detector; the recorded menu has three such sources.
+    RANGE RULES: body items "range" are pattern-action rules NR == lo, NR == hi applied to three records after BEGIN;
+    the in-range state is private state of the execution (interp[i].open); under the SharedCache slip it is a table of
+    the program and a later execution starts inside the range (refuted).  Gen_SharedProgram with Rules = TRUE: two
+    processes x two executions over bodies of range rules, executions that end inside a range included.
 """
 import copy, glob, json, os, random, re, threading
 from vlib import MachineryError
@@ -43,6 +53,12 @@ def corrupt(case, rnd):
         # tokens (values >= 10000: random numbers, the initial seed) may be any number: corrupt a plain value
         plain = [i for i, v in enumerate(out) if v < 10000]
         out[rnd.choice(plain)] += 1
+        return c
+    if c.get('fam') == 'formats':
+        # one execution's prediction: another number of fraction digits, or other digits
+        e = rnd.choice(c['expect'])
+        j = rnd.randrange(len(e['out']))
+        e['out'][j] = e['out'][j] + 1
         return c
     if c.get('fam') == 'shell':
         # the prediction of one execution: a value another command string would give, or a plain value off by one
@@ -152,7 +168,12 @@ def run(ctx):
                 'sources, rendered and parsed in that order in one process, three rounds (non-trivial when a source whose '
                 'verdict depends on the parser context follows a rejected one); (d) one program over the instructions that '
                 'start commands, executed by 3-4 interpreters each with a command string of its own, one after the other '
-                'and concurrently (2-3 executions per goroutine), replayed also under the race detector')
+                'and concurrently (2-3 executions per goroutine), replayed also under the race detector; (e) one program of '
+                '1-2 instructions among which a conversion of a non-integer number (print through OFMT, concatenation through '
+                'CONVFMT), executed by 4 interpreters each with number formats of its own, one after the other and concurrently '
+                '(25 executions per goroutine), also under the race detector; one program with 1-2 range rules (closing before '
+                'the end of the input, at the opening record, or never) executed twice by each of 2 processes under an imposed '
+                'interleaving')
     ctx.assumptions += [
         'the compiled program is observed through Program.Disassemble and the exported tables of Program.Compiled '
         '(Begin, Actions, End, Functions, Nums, Strs, Regexes)',
@@ -167,6 +188,15 @@ def run(ctx):
         'compiled at run time)/call/print/rand/srand over two globals; random numbers and the seed an execution starts '
         'with are tokens: the same token must be the same number in every execution of a case (a single execution on a '
         'Program of its own included), nothing is said about different tokens',
+        'number formats: OFMT = "%.<p>f", CONVFMT = "%.<p+1>f" with p in 2..5, applied to a + 0.25 (a an integer): at least '
+        'two fraction digits, so the numeral is exact and no rounding rule is involved; the prediction is written as '
+        '(fraction digits, digits without the point) and the output lines of that form are rewritten the same way before '
+        'the comparison; formats that need a default precision added (%g) and exponent forms are only in the recorded menu',
+        'range rules: NR == lo, NR == hi { print ... } over three input records, lo/hi such that the range closes before the '
+        'end, at the record that opens it, or never (the execution ends inside the range); the semantics of a range rule '
+        '(start expression evaluated outside the range only, stop expression also for the opening record) is the AWK '
+        'language\'s and is checked first on a single execution with a Program of its own; the recorded menu adds ranges '
+        'left open by the end of the input and by exit, two rules side by side, and a start expression with a side effect',
         'for sources with several errors only determinism is judged (one verdict, one message and position in 200 parses); '
         'WHICH of the errors is reported is not stated by the property and not compared',
         'Config.Funcs: documented is that the map given to ParseProgram is the one given to the execution; the recorded '
@@ -255,6 +285,14 @@ def run(ctx):
         c = ctx.cfg('MC_SharedProgram', name='MC_SharedProgram_reuse', constants=dict(sp, MaxRuns=2, MaxLen=1, ReuseInterp='TRUE'),
                     drop=['INVARIANTS'], add='INVARIANTS Equivalent')
         expect_refuted(ctx, 'MC_SharedProgram', c, ('Equivalent',), timeout=900)
+        # range rules: whether a rule is between its start and its stop record is state of the execution -- executions
+        # that end inside a range included, two executions per process ...
+        c = ctx.cfg('MC_SharedProgram', name='MC_SharedProgram_rules', constants=dict(sp, Extra='"rules"', MaxLen=1 if q else 2))
+        ctx.tlc('MC_SharedProgram', c, timeout=1500, heap='8g')
+        # ... and the slip: the in-range flags are a table of the shared program (a later execution starts inside the range)
+        c = ctx.cfg('MC_SharedProgram', name='MC_SharedProgram_rules_slip', constants=dict(sp, Extra='"rules"', MaxLen=1, SharedCache='TRUE'),
+                    drop=['INVARIANTS', 'PROPERTIES'], add='INVARIANTS Equivalent')
+        expect_refuted(ctx, 'MC_SharedProgram', c, ('Equivalent',), timeout=900)
         # (c) histories of parses: the verdict is a function of the source alone ...
         ph = dict(MaxHist=4 if q else 8, Rich='TRUE', Survives='{}')
         c = ctx.cfg('MC_ParseHistory', name='MC_ParseHistory_ok', constants=ph)
@@ -286,6 +324,15 @@ def run(ctx):
             c = ctx.cfg('MC_SharedProgram', name='MC_SharedProgram_shellargs_w', constants=dict(sh, SharedShellArgs='TRUE'),
                         drop=['INVARIANTS'], add='INVARIANTS NoSharedWrite NoForeignRead')
             expect_refuted(ctx, 'MC_SharedProgram', c, ('NoSharedWrite', 'NoForeignRead'), timeout=900)
+        # (e) conversions of a non-integer number, every process with number formats of its own ...
+        fm = dict(sh, Cmds='FALSE', Extra='"formats"')
+        c = ctx.cfg('MC_SharedProgram', name='MC_SharedProgram_formats', constants=fm)
+        ctx.tlc('MC_SharedProgram', c, timeout=1500, heap='8g')
+        # ... and the slip: the determined format is one process-level location (an execution prints with another
+        # interpreter's format)
+        c = ctx.cfg('MC_SharedProgram', name='MC_SharedProgram_formats_slip', constants=dict(fm, SharedShellArgs='TRUE'),
+                    drop=['INVARIANTS'], add='INVARIANTS Equivalent')
+        expect_refuted(ctx, 'MC_SharedProgram', c, ('Equivalent',), timeout=900)
     # ---- 2. spec -> code ----
     g = ctx.cfg('Gen_Resolver', name='Gen_Resolver_multi3', constants=res(Family='"multi"', NFm=3))
     ctx.tlc('Gen_Resolver', g, capture='cases.ndjson', timeout=900)
@@ -321,6 +368,9 @@ def run(ctx):
     # three processes (one per execution interface), two executions each, richer instruction menu
     g = ctx.cfg('Gen_SharedProgram', name='Gen_SharedProgram_sim', constants=dict(sp, NProc=3, MaxLen=3, MaxRuns=2, Rich='TRUE'))
     ctx.tlc('Gen_SharedProgram', g, capture='cases.ndjson', simulate=(500 if q else 20000), depth=80, workers=w4, timeout=1500)
+    # programs with range rules (executions that end inside a range included): two processes, two executions each
+    g = ctx.cfg('Gen_SharedProgram', name='Gen_SharedProgram_rules', constants=dict(sp, MaxLen=2, MaxRuns=2, Extra='"rules"'))
+    ctx.tlc('Gen_SharedProgram', g, capture='cases.ndjson', simulate=(250 if q else 5000), depth=80, workers=1, timeout=1500)
     # histories of parses: every failing place x every statement kind in every context, and random walks
     g = ctx.cfg('Gen_ParseHistory', name='Gen_ParseHistory_pairs', constants=dict(Fam='"pairs"', Rich='FALSE' if q else 'TRUE'))
     ctx.tlc('Gen_ParseHistory', g, capture='cases.ndjson', workers=w4, timeout=1500)
@@ -340,13 +390,20 @@ def run(ctx):
         random.Random(ctx.seed).shuffle(two)
         allsh = one + two[:10]
     open(ctx.path('cases_shell.ndjson'), 'w').writelines(allsh)
+    # programs that convert non-integer numbers, for free-running concurrent executions with number formats each: every
+    # body of one or two instructions
+    g = ctx.cfg('Gen_SharedProgram', name='Gen_SharedProgram_formats', constants=dict(sp, Fam='"formats"', NG=4))
+    ctx.tlc('Gen_SharedProgram', g, capture='cases_formats_all.ndjson', workers=1, timeout=900)
+    open(ctx.path('cases_formats.ndjson'), 'w').writelines(sorted(set(open(ctx.path('cases_formats_all.ndjson')))))
     ctx.cov['exhaustive'] = True
     ctx.replay('cases.ndjson', label='gen-c19', min_cases=1000, corrupt=corrupt)
+    ctx.replay('cases_formats.ndjson', label='gen-c19-formats', min_cases=8, corrupt=corrupt)
     ctx.replay('cases_shell.ndjson', label='gen-c19-shell', min_cases=4, selftest=False)
     ctx.selftest(ctx.path('cases_shell.ndjson'), 'C19', corrupt, 'gen-c19-shell', k=4)     # (every case starts processes)
     # the binding self-test again on the new families alone: sources with several collected errors; processes that
     # execute the program twice through the three interfaces
-    for label, key in (('gen-c19-collect', '"fam":"collect"'), ('gen-c19-runs2', '"runs":2'), ('gen-c19-history', '"fam":"history"')):
+    for label, key in (('gen-c19-collect', '"fam":"collect"'), ('gen-c19-runs2', '"runs":2'), ('gen-c19-history', '"fam":"history"'),
+                       ('gen-c19-rules', '"op":"range"')):
         with open(ctx.path(f'cases_{label}.ndjson'), 'w') as f:
             for line in open(ctx.path('cases.ndjson')):
                 if key in line:
@@ -408,23 +465,25 @@ def run(ctx):
     ctx.harness(['C19', 'record', '-seed', str(ctx.seed + 100), '-n', str(nrace), '-out', ctx.path('trace_race.ndjson')],
                 binary=race['bin'], env={'GORACE': f'log_path={prefix} halt_on_error=0 exitcode=0'}, timeout=3000)
     # ... and the programs that start commands, every execution with its own command string
-    rout = ctx.path('summary_race_shell.json')
-    ctx.harness(['C19', 'replay', '-in', ctx.path('cases_shell.ndjson'), '-out', rout], binary=race['bin'],
-                env={'GORACE': f'log_path={prefix} halt_on_error=0 exitcode=0'}, timeout=3000)
-    rs = json.load(open(rout))
-    if rs['sig_counts'].get('HARNESS-PANIC'):
-        raise MachineryError('race build: harness panicked: ' + [x for x in rs['failures'] if x['sig'] == 'HARNESS-PANIC'][0]['what'][:2000])
-    if rs['n'] < 4:
-        raise MachineryError(f'race build: only {rs["n"]} shell cases replayed')
-    if rs['skipped']:
-        ctx.notes.append(f'race build: {rs["skipped"]} of {rs["n"]} shell cases skipped (command output lost by a starved machine)')
-    ctx.cov['evaluations'] += rs['n']
-    ctx.cov['race_detector_shell_cases'] = rs['n'] - rs['skipped']
-    for f in rs['failures']:
-        ctx.failures.append(f)
-    for k, v in rs['sig_counts'].items():
-        ctx.sig_counts[k] = ctx.sig_counts.get(k, 0) + v
-    ctx.log(f"race build, shell family: {rs['n']} behaviours replayed, {rs['skipped']} skipped, failing signatures: {rs['sig_counts'] or 'none'}")
+    # ... and the programs that convert non-integer numbers, every execution with its own number formats
+    for fam in ('shell', 'formats'):
+        rout = ctx.path(f'summary_race_{fam}.json')
+        ctx.harness(['C19', 'replay', '-in', ctx.path(f'cases_{fam}.ndjson'), '-out', rout], binary=race['bin'],
+                    env={'GORACE': f'log_path={prefix} halt_on_error=0 exitcode=0'}, timeout=3000)
+        rs = json.load(open(rout))
+        if rs['sig_counts'].get('HARNESS-PANIC'):
+            raise MachineryError('race build: harness panicked: ' + [x for x in rs['failures'] if x['sig'] == 'HARNESS-PANIC'][0]['what'][:2000])
+        if rs['n'] < 4:
+            raise MachineryError(f'race build: only {rs["n"]} {fam} cases replayed')
+        if rs['skipped']:
+            ctx.notes.append(f'race build: {rs["skipped"]} of {rs["n"]} {fam} cases skipped (command output lost by a starved machine)')
+        ctx.cov['evaluations'] += rs['n']
+        ctx.cov[f'race_detector_{fam}_cases'] = rs['n'] - rs['skipped']
+        for f in rs['failures']:
+            ctx.failures.append(f)
+        for k, v in rs['sig_counts'].items():
+            ctx.sig_counts[k] = ctx.sig_counts.get(k, 0) + v
+        ctx.log(f"race build, {fam} family: {rs['n']} behaviours replayed, {rs['skipped']} skipped, failing signatures: {rs['sig_counts'] or 'none'}")
     reps = race_reports(prefix)
     nrec = sum(1 for line in open(ctx.path('trace_race.ndjson')) if '"op":"parse"' in line)
     ctx.cov['race_reports'] = len(reps)
